@@ -57,7 +57,7 @@ func (g *vgen) str() string {
 	return r.pick(cleanStrings)
 }
 
-var intVals = []int64{0, 1, -1, 7, 42, -123456, 255, 65, 0x2039, 0x203a, 1114112, math.MaxInt64, math.MinInt64, 1000001, -5}
+var intVals = []int64{0, 1, -1, 7, 42, -1234, 255, 65, 0x2039, 0x203a, 1114112, math.MaxInt64, math.MinInt64, 1000001, -5}
 var floatVals = []float64{0, 1, -1, 1.5, -2.25, 3.14159, 1e21, 1e-7, 100, 123456789, math.Inf(1), math.Inf(-1), math.NaN(), math.Copysign(0, -1), 0.1}
 
 func (g *vgen) leaf() *Val {
@@ -97,7 +97,11 @@ func (g *vgen) leaf() *Val {
 		t := r.pick([]string{"string", "string", "string", "MyStr", "SvStr", "RegStr", "SafeString"})
 		return &Val{K: "s", GoT: t, S: g.str()}
 	case 11:
-		return &Val{K: "bs", GoT: r.pick([]string{"[]byte", "[]byte", "MyBytes"}), S: g.str(), Nil: r.coin(1, 8)}
+		v := &Val{K: "bs", GoT: r.pick([]string{"[]byte", "[]byte", "MyBytes"}), S: g.str(), Nil: r.coin(1, 8)}
+		if v.Nil {
+			v.S = ""
+		}
+		return v
 	case 12:
 		return &Val{K: "rs", S: g.redactable()}
 	case 13:
